@@ -419,6 +419,28 @@ def main_wrapper(fn):
     sys.exit(rc)
 
 
+class time_limit:
+    """Context manager: raise TimeoutError in the block after `seconds`
+    (SIGALRM; main thread of a worker process only)."""
+
+    def __init__(self, seconds):
+        self.seconds = seconds
+
+    def __enter__(self):
+        import signal
+
+        def _alarm(signum, frame):
+            raise TimeoutError(f'call did not return within {self.seconds}s')
+        self._old = signal.signal(signal.SIGALRM, _alarm)
+        signal.alarm(self.seconds)
+
+    def __exit__(self, *a):
+        import signal
+        signal.alarm(0)
+        signal.signal(signal.SIGALRM, self._old)
+        return False
+
+
 def pmap(fn, items, procs=14):
     """Parallel map over processes (export side is pure Python/numpy)."""
     import multiprocessing as mp
